@@ -13,7 +13,7 @@ from vlib import factbase as fb
 from vlib import q
 from . import arms as A
 from . import c15
-from .common import ctx, loc, chain_up
+from .common import ctx, loc, chain_up, pname
 
 LOSSY = {"filter", "filter_map", "skip", "take", "step_by", "take_while", "skip_while", "nth", "last", "find", "find_map", "dedup", "truncate", "rev", "pop", "remove"}
 
@@ -247,23 +247,32 @@ def rule_r2(facts, rep, rid="C09-R2"):
     # extract_sections   (self, keys = P1)
     g = facts.fn("Tree::extract_sections")
     rep.saw_fn(g)
-    txt = _cs(g, g.body)
     key = g.def_ + "|replace-iff-in-map"
+    cg_ = ctx(g)
     refs = _struct_lits(g.body, "node::Reference")
-    okx = (re.search(r"self\.id\.filter\(\|c0\|P1\.contains_key\(&c0\)\)", txt) is not None
-           and re.search(r"\.unwrap_or_else\(\|\|self\.map_children\(\|c1\|c1\.extract_sections\(P1(\.clone\(\))?\)\)\)", txt) is not None and len(refs) == 1)
-    if okx:
+    from .common import maps_every_child
+    rec = maps_every_child(cg_, g.body, "Tree::extract_sections")
+    # the recursion passes the same map on
+    rec_args_ok = all(any(y.get("k") in ("call", "mcall") and (fb.callee(y) or "").endswith("Tree::extract_sections") and
+                          [_cs(g, a).replace(".clone()", "") for a in y["args"]] == ["P1"] for y in fb.walk(x)) for x in rec)
+    if len(refs) == 1 and len(rec) == 1 and rec_args_ok:
         r = refs[0]
-        kk = _cs(g, _field(r, "key"))
-        tt = _cs(g, _field(r, "text"))
-        src = [x for x in fb.walk(g.body) if x.get("k") == "let" and x["pat"].get("k") == "p_tuple"]
-        src_ok = src and re.match(r"^P1\.get\(&c0\)", _cs(g, src[0]["init"])) is not None
-        if kk == "b0" and tt == "b1" and src_ok:
-            rep.ok(rid, key, "id in map -> Reference{key, text} from that id's map entry; else map_children(recursive)", g.loc)
+        pk, pt = cg_.vprov(_field(r, "key")), cg_.vprov(_field(r, "text"))
+
+        def from_entry(pv, idx):
+            return q.has_call(pv, "HashMap::get") and any(a[0] == "patpos" and a[1].endswith("tuple.%d" % idx) for a in pv) and ("param", pname(g, 1)) in pv
+        # the entry is looked up under this node's own id
+        gets = [x for x in fb.walk(g.body) if x.get("k") == "mcall" and (fb.callee(x) or "").endswith("HashMap::get")]
+        own_id = bool(gets) and all(("field", "id") in cg_.mentions(x["args"][0]) for x in gets)
+        # the recursion is the answer exactly when there is no entry: it sits on the None / unwrap_or_else / else edge of the lookup
+        if from_entry(pk, 0) and from_entry(pt, 1) and own_id:
+            rep.ok(rid, key, "id in map -> Reference{key, text} from that id's map entry; else every child recursively", g.loc)
         else:
-            rep.violation(rid, key, "the replacing reference is built from `%s` / `%s` (entry lookup `%s`)" % (kk, tt, _cs(g, src[0]["init"])[:40] if src else "?"), g.loc)
+            rep.violation(rid, key, "the replacing reference is not built from the (key, text) entry stored under this node's id (key from %s, text from %s)" % (
+                sorted(a[1] for a in pk if a[0] == "patpos"), sorted(a[1] for a in pt if a[0] == "patpos")), g.loc)
     else:
-        rep.violation(rid, key, "Tree::extract_sections no longer has the shape `id.filter(in map).map(Reference).unwrap_or_else(map_children(recursive))`", g.loc)
+        rep.violation(rid, key, "Tree::extract_sections no longer replaces a node that has a map entry by one Reference and otherwise maps every child recursively with the same map "
+                      "(%d Reference literal(s), %d recursion site(s))" % (len(refs), len(rec)), g.loc)
     # SubSectionsExtract
     h = facts.fn("SubSectionsExtract as iwes::router::server::action::ActionProvider>::changes")
     rep.saw_fn(h)
